@@ -1137,6 +1137,7 @@ class Machine(object):
                     self.count("for_zero_trip")
                     if s.match is None:
                         raise Undefined("for_zero_trip_without_next")
+                    self.regular_region(pc, s.match)
                     pc = s.match + 1
                 else:
                     loops.append(("FOR", pc, a[1], lim, st))
@@ -1172,6 +1173,7 @@ class Machine(object):
                         if self.misplaced_loop_word:
                             raise Undefined("loop_keyword_inside_statement")
                         raise BasicError("WHILE without WEND", ln)
+                    self.regular_region(pc, s.match)
                     pc = s.match + 1
             elif k == "wend":
                 if not any(l[0] == "WHILE" for l in loops):
@@ -1287,6 +1289,26 @@ class Machine(object):
                 break
             else:
                 raise AssertionError(k)
+
+    def regular_region(self, p0, p1):
+        """a loop body that is skipped without being executed: where the skipping ends is defined only if the loops in
+        it are properly nested, every NEXT names the variable of its FOR and no loop keyword hides inside a statement"""
+        if self.misplaced_loop_word:
+            raise Undefined("loop_keyword_inside_statement")
+        flat = self.flat
+        for q in range(p0, p1 + 1):
+            st_ = flat[q]
+            if st_.kind in ("FOR", "NEXT", "WHILE", "WEND"):
+                if st_.match is None or not (p0 <= st_.match <= p1):
+                    raise Undefined("skip_over_irregular_loop_structure")
+                if st_.kind == "FOR":
+                    try:
+                        a = Parser(st_.toks, st_.line).statement()
+                        b = Parser(flat[st_.match].toks, flat[st_.match].line).statement()
+                    except BasicError:
+                        raise Undefined("skip_over_irregular_loop_structure")
+                    if a[0] != "for" or b[0] != "next" or a[1] != b[1]:
+                        raise Undefined("skip_over_irregular_loop_structure")
 
     @staticmethod
     def _last_gosub(loops):
